@@ -818,6 +818,11 @@ def image_of_mapped(engine, ctx, m: V.MappedIter):
             if gen.ifs:
                 raise EngineLimit("filtered generator into set()")
             v = engine.eval(ctx, m.node.elt, cenv)
+        if isinstance(v, str) or (isinstance(v, z3.ExprRef) and z3.is_string(v)):
+            # a set of strings (e.g. the root namespace names of a list of definitions)
+            result.term = z3.K(z3.StringSort(), z3.BoolVal(False))
+            result.elem_sort = z3.StringSort()
+            v = V.Str.unwrap(v)
         ctx.collector.add(ctx, result, v)
 
     run_under_binding(engine, ctx, b, body)
@@ -841,7 +846,27 @@ def filter_iter(engine, ctx, fn, it):
             if ctx.decide(lift_bool_truth(engine, ctx, engine.call(ctx, fn, [x], {}))):
                 out.append(x)
         return PyList(out)
+    if isinstance(it, SymSeq):
+        return filter_symbolic(engine, ctx, fn, it)
     raise EngineLimit("filter over a symbolic domain")
+
+
+def filter_symbolic(engine, ctx, fn, src: SymSeq):
+    """filter(pred, seq) over a symbolic sequence: the predicate is evaluated once for an arbitrary element (it must be
+       a branch-free boolean expression of the element: `and`/`or` are evaluated without short-circuit forks, which is
+       only accepted when no operand branches or raises); the result is the canonical order-preserving subsequence."""
+    b = bind_domain(engine, ctx, src)
+    holder = {}
+
+    def body():
+        ctx.pure_bool = getattr(ctx, "pure_bool", 0) + 1
+        try:
+            holder["cond"] = lift_bool(lift_bool_truth(engine, ctx, engine.call(ctx, fn, [b.value], {})))
+        finally:
+            ctx.pure_bool -= 1
+
+    run_under_binding(engine, ctx, b, body)
+    return canonical_filter(ctx, src, holder["cond"], b.consts[0])
 
 
 # ----------------------------------------------------------------------------------------------------------------
@@ -1041,7 +1066,7 @@ def filtered_comprehension(engine, ctx, e, gen, src: SymSeq, b: Binding, env):
     return seq_from_template(engine, ctx, sub, b2, holder2["v"])
 
 
-def canonical_filter(ctx, src: SymSeq, cond, i0):
+def canonical_filter(ctx, src: SymSeq, cond, i0, strict=False):
     """The order-preserving subsequence of `src` of the elements that satisfy a predicate of the element.
        Canonical: flt!<hash>!arr(src.arr, n), a function of the source (equal filters give equal terms)."""
     import hashlib
@@ -1077,6 +1102,11 @@ def canonical_filter(ctx, src: SymSeq, cond, i0):
                                                sel(farr(S, n), finv(S, n, i)) == sel(S, i))),
                   patterns=[z3.MultiPattern(sel(S, i), farr(S, n)), z3.MultiPattern(sel(S, i), flen(S, n))]),
     ]
+    if strict:
+        # a filter that rejects some element is strictly shorter than its source
+        # (Lean: Pydsdl.filter_length_lt, lean/Pydsdl/Filter.lean = List.length_filter_lt_length_iff_exists)
+        facts.append(z3.ForAll([S, n, i], z3.Implies(z3.And(0 <= i, i < n, z3.Not(P(sel(S, i)))), flen(S, n) < n),
+                               patterns=[z3.MultiPattern(sel(S, i), flen(S, n))]))
     for f in facts:
         ctx.add_axiom(f)
     sub = SymSeq(farr(src.arr, src.length), flen(src.arr, src.length), src.kind, fresh=True)
